@@ -1150,6 +1150,10 @@ mod os {
             block.extend(v.encode_wide());
             block.push(0);
         }
+        if block.is_empty() {
+            // an empty block still needs its two terminators
+            block.push(0);
+        }
         block.push(0);
         block
     }
